@@ -393,6 +393,9 @@ def oracle_c07(snap, case, stage):
                 base_of(n["cls"]) == f"{group['name']}.{v['name']}" for v in group["variants"])]
             expected_clones = len({base_of(n["cls"]) for n in variants_present})
             per_vmvariant = collections.Counter(n["cls"].split(".vms.", 1)[1] for n in clones)
+            for source in sources:
+                # a clone source without any runnable clone counts as zero clones
+                per_vmvariant.setdefault(source["cls"].split(".vms.", 1)[1], 0)
             for vmvariant, number in per_vmvariant.items():
                 if expected_clones and number != expected_clones:
                     add("dependant of several producers not cloned once per producer",
